@@ -168,7 +168,13 @@ m("C03", "other",
   "sender, in its retransmission step, resumes and acknowledges the Finished PDU "
   "(C03_sender_finished_after_retransmission); both idle, no call raises, file byte-identical, one successful "
   "Transaction-Finished indication on each side, no fault callback; a concrete instance shows the hypotheses "
-  "are satisfiable. The "
+  "are satisfiable. Likewise composed, for every file/segmentation/configuration: C03_end_to_end_eof_loss (EOF "
+  "lost; the sender's timer expires, the identical EOF is re-sent and acknowledged), "
+  "C03_end_to_end_ack_eof_loss (ACK (EOF) lost; the sender accepts the Finished PDU while still waiting for "
+  "that ACK, no timer needed), C03_closing_finished_lost / C03_closing_finished_ack_lost (Finished PDU or its "
+  "ACK lost; the receiver's timer expires, the identical Finished PDU is re-sent; stated from any state with "
+  "everything sent and the EOF acknowledged (SentAllS, Acked), hence composable with each run above: one "
+  "fault before the closing handshake and one in it). The "
   "liveness claim for arbitrary <= K fault schedules (recovery within the limits) is NOT a theorem: it is "
   "explored on implementation and model — exhaustively for every schedule of one or two dropped PDUs per "
   "configuration, sampled for <= 3 mixed faults.",
@@ -176,8 +182,9 @@ m("C03", "other",
   "+ list lemmas on the file with a hole) + exhaustive <=2-drop and sampled fault-schedule exploration "
   "(general liveness not proved)", "§6 C03, §11",
   ["liveness under an adversarial link with K > 1 faults / duplication / reordering is explored, not proved "
-   "(DESIGN.md §6 C03 stage 4); the proved recovery runs are for one lost File Data PDU, deferred NAK mode, "
-   "one PDU per call"])
+   "(DESIGN.md §6 C03 stage 4); the proved recovery runs are for one lost File Data PDU (deferred NAK mode), a lost EOF, ACK (EOF), "
+   "Finished or ACK (Finished) PDU, one PDU per call; lost Metadata / NAK / retransmission and the immediate "
+   "NAK mode are exploration-level"])
 m("C04", "proof",
   "silent-peer scenarios for the three retry procedures with limits 1..4 and intervals 500..2000 ms: calls "
   "one ms before each expiry (nothing may happen), exactly at it; the awaited ACK after j < N expiries; exact "
